@@ -178,9 +178,18 @@ package wamp
 //@   requires s != nil
 //@   modifies s.roles, fresh map[string]map[string]struct{}, fresh map[string]struct{}
 
+// A session always has a peer: sessions are created by NewSession only
+// (AttachClient for clients, createMetaSession for the meta session).
+//@ fieldinv Session.Peer : !isnil(v)
+
 //@ func NewSession
+//@   requires !isnil(peer)
 //@   modifies nothing
 //@   ensures result != nil && fresh(result) && result.ID == id && result.Peer == peer && result.Details == details
 
 // The realm named in a HELLO is never rewritten after the message is built.
 //@ immutable Hello Realm
+
+//@ func DictValue
+//@   props C04
+//@   requires len(path) >= 1
